@@ -24,59 +24,123 @@ let prim_bits ty = match ty with
   | "u8" | "i8" -> 8 | "u16" | "i16" -> 16 | "u32" | "i32" -> 32
   | "u64" | "i64" | "usize" | "isize" -> 64 | _ -> 128
 
+(* word-level as-is models (Int/BitsKernels.v, proved for every word size) run at the word size of
+   the harness build; a magnitude is handed over as its typed view (inline double word / heap
+   words), C09_to_brepr proves that view faithful *)
+let br m = to_brepr w64 m
+let bv r = bvalue w64 r
+let fid_tokens want got = "asis=" ^ (if got = "ok" :: want then "same" else "diff")
+(* two as-is answers (sign table on Z, and the same table over the word kernels) must both match *)
+let fid2 a b got = match got with
+  | [ "ok"; g ] -> "asis=" ^ (if hx a = g && hx b = g then "same" else "diff")
+  | _ -> "asis=na"
+
 let judge op args got =
   let a i = z (List.nth args i) in
   let n i = usz (List.nth args i) in
-  let bin tbl f =
+  let bin own tbl wtbl f =
     let x = a 0 and y = a 1 in
     let s0, m0 = sm x and s1, m1 = sm y in
-    expect ~extra:(fidelity (tbl s0 m0 s1 m1) got) ("ok " ^ hx (f x y)) got
+    expect ~extra:(fid2 (tbl s0 m0 s1 m1) (wtbl own s0 (br m0) s1 (br m1)) got) ("ok " ^ hx (f x y)) got
+  in
+  let ubin own wop f =
+    let x = a 0 and y = a 1 in
+    expect ~extra:(fid_tokens [ hx (bv (wop w64 own (br x) (br y))) ] got) ("ok " ^ hx (f x y)) got
   in
   match op with
-  | "and" | "and_rr" -> bin ibig_bitand_gen Zar.logand
-  | "or" | "or_rr" | "or_ui" | "or_iu" -> bin ibig_bitor_gen Zar.logor
-  | "xor" | "xor_rr" | "xor_ui" | "xor_iu" -> bin ibig_bitxor_gen Zar.logxor
-  | "uand" | "uand_rv" | "uor" | "uor_vr" | "uxor" | "uxor_rr" ->
-      let f = (match String.sub op 0 3 with "uan" -> Zar.logand | "uor" -> Zar.logor | _ -> Zar.logxor) in
-      expect ("ok " ^ hx (f (a 0) (a 1))) got
-  | "and_ui" -> bin ubig_ibig_bitand_gen Zar.logand
-  | "and_iu" -> bin ibig_ubig_bitand_gen Zar.logand
+  | "and" -> bin VV ibig_bitand_gen (ibig_bitand_asis w64) Zar.logand
+  | "and_vr" -> bin VR ibig_bitand_gen (ibig_bitand_asis w64) Zar.logand
+  | "and_rv" -> bin RV ibig_bitand_gen (ibig_bitand_asis w64) Zar.logand
+  | "and_rr" -> bin RR ibig_bitand_gen (ibig_bitand_asis w64) Zar.logand
+  | "or" | "or_ui" | "or_iu" -> bin VV ibig_bitor_gen (ibig_bitor_asis w64) Zar.logor
+  | "or_vr" -> bin VR ibig_bitor_gen (ibig_bitor_asis w64) Zar.logor
+  | "or_rv" -> bin RV ibig_bitor_gen (ibig_bitor_asis w64) Zar.logor
+  | "or_rr" -> bin RR ibig_bitor_gen (ibig_bitor_asis w64) Zar.logor
+  | "xor" | "xor_ui" | "xor_iu" -> bin VV ibig_bitxor_gen (ibig_bitxor_asis w64) Zar.logxor
+  | "xor_vr" -> bin VR ibig_bitxor_gen (ibig_bitxor_asis w64) Zar.logxor
+  | "xor_rv" -> bin RV ibig_bitxor_gen (ibig_bitxor_asis w64) Zar.logxor
+  | "xor_rr" -> bin RR ibig_bitxor_gen (ibig_bitxor_asis w64) Zar.logxor
+  | "uand" -> ubin VV repr_bitand Zar.logand
+  | "uand_vr" -> ubin VR repr_bitand Zar.logand
+  | "uand_rv" -> ubin RV repr_bitand Zar.logand
+  | "uand_rr" -> ubin RR repr_bitand Zar.logand
+  | "uor" -> ubin VV repr_bitor Zar.logor
+  | "uor_vr" -> ubin VR repr_bitor Zar.logor
+  | "uor_rv" -> ubin RV repr_bitor Zar.logor
+  | "uor_rr" -> ubin RR repr_bitor Zar.logor
+  | "uxor" -> ubin VV repr_bitxor Zar.logxor
+  | "uxor_vr" -> ubin VR repr_bitxor Zar.logxor
+  | "uxor_rv" -> ubin RV repr_bitxor Zar.logxor
+  | "uxor_rr" -> ubin RR repr_bitxor Zar.logxor
+  | "and_ui" -> bin VV ubig_ibig_bitand_gen (ibig_bitand_asis w64) Zar.logand
+  | "and_iu" ->
+      (* impl_ibig_ubig_bitand: the unsigned operand (second) is the receiver of bitand / and_not *)
+      bin VV ibig_ubig_bitand_gen (fun own s0 r0 _ r1 -> ibig_bitand_asis w64 own Positive r1 s0 r0) Zar.logand
   | "not" -> let x = a 0 in let s, m = sm x in expect ~extra:(fidelity (ibig_not_gen s m) got) ("ok " ^ hx (Zar.lognot x)) got
   | "not_r" -> let x = a 0 in let s, m = sm x in expect ~extra:(fidelity (ibig_not_ref_gen s m) got) ("ok " ^ hx (Zar.lognot x)) got
   | "uand_p" | "uor_p" | "uxor_p" | "iand_pu" | "ior_pu" | "ixor_pu" | "iand_pi" | "ior_pi" | "ixor_pi" ->
       let x = a 1 and p = a 2 in
       let f = (match String.sub op 1 2 with "an" -> Zar.logand | "or" -> Zar.logor | _ -> Zar.logxor) in
       expect ("ok " ^ hx (f x p)) got
-  | "shl" | "shl_r" | "ushl" | "ushl_r" | "ushl_assign" -> expect ("ok " ^ hx (Zar.shift_left (a 0) (Zar.to_int (n 1)))) got
+  | "shl" | "shl_r" ->
+      let x = a 0 in let s, m = sm x in
+      let asis = if op = "shl" then ibig_shl_asis w64 s true (br m) (n 1) else signed s (bv (repr_shl_ref w64 (br m) (n 1))) in
+      expect ~extra:(fid_tokens [ hx asis ] got) ("ok " ^ hx (Zar.shift_left x (Zar.to_int (n 1)))) got
+  | "ushl" | "ushl_assign" | "ushl_r" ->
+      let x = a 0 in
+      let asis = if op = "ushl_r" then repr_shl_ref w64 (br x) (n 1) else repr_shl w64 true (br x) (n 1) in
+      expect ~extra:(fid_tokens [ hx (bv asis) ] got) ("ok " ^ hx (Zar.shift_left x (Zar.to_int (n 1)))) got
   | "shr" | "shr_assign" -> let x = a 0 in let s, m = sm x in
-      expect ~extra:(fidelity (ibig_shr_gen s m (n 1)) got) ("ok " ^ hx (Zar.shift_right x (Zar.to_int (n 1)))) got
+      expect ~extra:(fid2 (ibig_shr_gen s m (n 1)) (ibig_shr_asis w64 s (br m) (n 1)) got) ("ok " ^ hx (Zar.shift_right x (Zar.to_int (n 1)))) got
   | "shr_r" -> let x = a 0 in let s, m = sm x in
-      expect ~extra:(fidelity (ibig_shr_ref_gen s m (n 1)) got) ("ok " ^ hx (Zar.shift_right x (Zar.to_int (n 1)))) got
-  | "ushr" | "ushr_r" -> expect ("ok " ^ hx (Zar.shift_right (a 0) (Zar.to_int (n 1)))) got
+      expect ~extra:(fid2 (ibig_shr_ref_gen s m (n 1)) (ibig_shr_ref_asis w64 s (br m) (n 1)) got) ("ok " ^ hx (Zar.shift_right x (Zar.to_int (n 1)))) got
+  | "ushr" | "ushr_r" ->
+      let x = a 0 in
+      let asis = if op = "ushr" then repr_shr w64 (br x) (n 1) else repr_shr_ref w64 (br x) (n 1) in
+      expect ~extra:(fid_tokens [ hx (bv asis) ] got) ("ok " ^ hx (Zar.shift_right x (Zar.to_int (n 1)))) got
   | "ubit" ->
       let x = a 0 in
-      let extra = if Zar.numbits x > 128 then (match got with [ "ok"; g ] -> "asis=" ^ (if b2s (bit_large w64 (words_of x) (n 1)) = g then "same" else "diff") | _ -> "") else "" in
+      expect ~extra:(fid_tokens [ b2s (repr_bit w64 (br x) (n 1)) ] got) ("ok " ^ b2s (Zar.testbit x (Zar.to_int (n 1)))) got
+  | "bit" ->
+      let x = a 0 in let s, m = sm x in
+      let extra = if Zar.sign x = 0 then "" else fid_tokens [ b2s (ibig_bit w64 s (br m) (n 1)) ] got in
       expect ~extra ("ok " ^ b2s (Zar.testbit x (Zar.to_int (n 1)))) got
-  | "bit" -> expect ("ok " ^ b2s (Zar.testbit (a 0) (Zar.to_int (n 1)))) got
-  | "bit_len" | "ubit_len" -> expect ("ok " ^ hx (bit_len_spec (a 0))) got
-  | "set_bit" -> expect ("ok " ^ hx (set_bit_spec (a 0) (n 1))) got
-  | "clear_bit" -> expect ("ok " ^ hx (clear_bit_spec (a 0) (n 1))) got
+  | "bit_len" | "ubit_len" ->
+      let x = a 0 in
+      expect ~extra:(fid_tokens [ hx (repr_bit_len w64 (br (Zar.abs x))) ] got) ("ok " ^ hx (bit_len_spec x)) got
+  | "set_bit" ->
+      expect ~extra:(fid_tokens [ hx (bv (repr_set_bit w64 (br (a 0)) (n 1))) ] got) ("ok " ^ hx (set_bit_spec (a 0) (n 1))) got
+  | "clear_bit" ->
+      expect ~extra:(fid_tokens [ hx (bv (repr_clear_bit w64 (br (a 0)) (n 1))) ] got) ("ok " ^ hx (clear_bit_spec (a 0) (n 1))) got
   | "utz" | "tz" ->
       let x = a 0 in
-      let extra = if Zar.numbits x > 128 then fid_opt (trailing_zeros_large w64 (words_of (Zar.abs x))) got else "" in
-      expect ~extra ("ok " ^ hopt (trailing_zeros_spec x)) got
+      expect ~extra:(fid_tokens (split_ws (hopt (repr_trailing_zeros w64 (br (Zar.abs x))))) got) ("ok " ^ hopt (trailing_zeros_spec x)) got
   | "uto" ->
       let x = a 0 in
-      let extra = if Zar.numbits x > 128 then fid_opt (trailing_ones_large w64 (words_of x)) got else "" in
+      (* two word-level answers: the scanning kernel on the raw words and the typed dispatch *)
+      let k = repr_trailing_ones w64 (br x) in
+      let extra = if Zar.numbits x > 128 && not (Zar.equal k (trailing_ones_large w64 (words_of x))) then "asis=diff"
+                  else fid_tokens [ "some"; hx k ] got in
       expect ~extra ("ok " ^ hopt (trailing_ones_spec x)) got
-  | "to" -> expect ("ok " ^ hopt (trailing_ones_spec (a 0))) got
-  | "count_ones" -> expect ("ok " ^ hx (count_ones_spec (a 0))) got
-  | "count_zeros" -> expect ("ok " ^ hopt (count_zeros_spec (a 0))) got
-  | "split_bits" -> let (lo, hi) = split_bits_spec (a 0) (n 1) in expect ("ok " ^ hx lo ^ " " ^ hx hi) got
-  | "clear_high_bits" -> expect ("ok " ^ hx (clear_high_bits_spec (a 0) (n 1))) got
-  | "is_pow2" -> expect ("ok " ^ b2s (is_power_of_two_spec (a 0))) got
-  | "next_pow2" -> expect ("ok " ^ hx (next_power_of_two_spec (a 0))) got
-  | "ones" -> expect ("ok " ^ hx (ones_spec (n 0)) ^ " 1") got
+  | "to" ->
+      let x = a 0 in let s, m = sm x in
+      expect ~extra:(fid_tokens (split_ws (hopt (ibig_trailing_ones w64 s (br m)))) got) ("ok " ^ hopt (trailing_ones_spec x)) got
+  | "count_ones" ->
+      expect ~extra:(fid_tokens [ hx (repr_count_ones (br (a 0))) ] got) ("ok " ^ hx (count_ones_spec (a 0))) got
+  | "count_zeros" ->
+      expect ~extra:(fid_tokens (split_ws (hopt (repr_count_zeros w64 (br (a 0))))) got) ("ok " ^ hopt (count_zeros_spec (a 0))) got
+  | "split_bits" ->
+      let (lo, hi) = split_bits_spec (a 0) (n 1) in
+      let (alo, ahi) = repr_split_bits w64 (br (a 0)) (n 1) in
+      expect ~extra:(fid_tokens [ hx (bv alo); hx (bv ahi) ] got) ("ok " ^ hx lo ^ " " ^ hx hi) got
+  | "clear_high_bits" ->
+      expect ~extra:(fid_tokens [ hx (bv (repr_clear_high_bits w64 (br (a 0)) (n 1))) ] got) ("ok " ^ hx (clear_high_bits_spec (a 0) (n 1))) got
+  | "is_pow2" ->
+      expect ~extra:(fid_tokens [ b2s (repr_is_power_of_two (br (a 0))) ] got) ("ok " ^ b2s (is_power_of_two_spec (a 0))) got
+  | "next_pow2" ->
+      expect ~extra:(fid_tokens [ hx (bv (repr_next_power_of_two w64 (br (a 0)))) ] got) ("ok " ^ hx (next_power_of_two_spec (a 0))) got
+  | "ones" ->
+      expect ~extra:(fid_tokens [ hx (bv (repr_ones w64 (n 0))); "1" ] got) ("ok " ^ hx (ones_spec (n 0)) ^ " 1") got
   | _ -> fail ("unknown-op-" ^ op)
 
 let () = serve judge
